@@ -1,6 +1,6 @@
 (* C02 — instantiation used by the correspondence check, and the two clauses. *)
 From Coq Require Import List Bool NArith ZArith.
-From AUC Require Export Prelude.PyStr Prelude.PyDict Prelude.Utf8 C16.Model C16.Spec C03.Model C01.Model C02.Model.
+From AUC Require Export Prelude.PyStr Prelude.PyDict Prelude.Utf8 C16.Model C16.Spec C03.Model C03.Spec C01.Model C02.Model.
 Import ListNotations.
 Local Open Scope N_scope.
 
@@ -58,11 +58,37 @@ Section Run.
     else (ob_callbacks ob =? 0) && (ob_sent ob =? 0) && (ob_scheduled ob =? 0) &&
          perm_eqb str_eqb (ob_devs ob) prev_devs.
 
+  (* clause 3, the tracker-level half of "anything else is dropped": what the combined listener is handed, in the
+     vocabulary of the tracker specification (C03.Spec); a message of its domain that is neither a valid sighting
+     nor a valid byebye triggers no callback and leaves the known devices unchanged *)
+  Definition listener_op (s : dstep) : option op :=
+    if is_valid_packet (s_data s) then
+      match decode url_of (s_data s) (s_local s) (s_addr s) (s_remote s) (s_now s) with
+      | C01.Model.Ok (_, h) =>
+          let items := b_as_lower str_eqb lower h in
+          match s_ep s with
+          | EListenerAdv => Some (Adv items)
+          | EListenerSrch => Some (Srch items)
+          | _ => None
+          end
+      | C01.Model.Raise _ => None
+      end
+    else None.
+  Definition neither (o : op) : bool :=
+    op_in_domain o && match sighting o with None => true | Some _ => false end &&
+    match byebye_of o with None => true | Some _ => false end.
+  Definition c_listener_inert (s : dstep) (prev_devs : list pystr) (ob : sobs) : bool :=
+    match listener_op s with
+    | Some o => if neither o then (ob_callbacks ob =? 0) && perm_eqb str_eqb (ob_devs ob) prev_devs else true
+    | None => true
+    end.
+
   Fixpoint clauses_from (n : N) (prev_devs : list pystr) (steps : list dstep) (obs_l : observation) : list (N * N) :=
     match steps, obs_l with
     | s :: steps', ob :: obs' =>
         (if c_never_raises ob then [] else [(1, n)]) ++
         (if c_dropped_silent s prev_devs ob then [] else [(2, n)]) ++
+        (if c_listener_inert s prev_devs ob then [] else [(3, n)]) ++
         clauses_from (N.succ n) (ob_devs ob) steps' obs'
     | [], [] => []
     | _, _ => [(1, n)]
